@@ -71,8 +71,11 @@ class Recorder:
         self.fail_at = fail_at
         self.partial = partial
         self.fired = None
+        self.enabled = True   # switched off while the harness itself sets up / snapshots the tree
 
     def count(self, kind, path, info=None):
+        if not self.enabled:
+            return False
         self.n += 1
         self.log.append((self.n, kind, path, info))
         if self.fail_at is not None and self.n == self.fail_at:
@@ -142,15 +145,15 @@ def make_native(rec):
             return WriteProxy(f, rec, path) if _writing(mode) else f
 
         def listdir(self, path):
-            rec.log.append((None, "listdir", path, None))
+            rec.enabled and rec.log.append((None, "listdir", path, None))
             return super().listdir(path)
 
         def isdir(self, path):
-            rec.log.append((None, "isdir", path, None))
+            rec.enabled and rec.log.append((None, "isdir", path, None))
             return super().isdir(path)
 
         def exists(self, path):
-            rec.log.append((None, "exists", path, None))
+            rec.enabled and rec.log.append((None, "exists", path, None))
             return super().exists(path)
 
     return RecordingNativeFS()
@@ -168,15 +171,15 @@ def make_memory(rec):
             return WriteProxy(f, rec, path) if _writing(mode) else f
 
         def listdir(self, path):
-            rec.log.append((None, "listdir", path, None))
+            rec.enabled and rec.log.append((None, "listdir", path, None))
             return super().listdir(path)
 
         def isdir(self, path):
-            rec.log.append((None, "isdir", path, None))
+            rec.enabled and rec.log.append((None, "isdir", path, None))
             return super().isdir(path)
 
         def exists(self, path):
-            rec.log.append((None, "exists", path, None))
+            rec.enabled and rec.log.append((None, "exists", path, None))
             return super().exists(path)
 
     return RecordingMemoryFS()
